@@ -399,6 +399,43 @@ def reader_relational(prog, rep, u, wt, ls):
               function=ini.name, construct="inv:init")
 
 
+
+def reader_cancel(prog, rep, u, wt, ls):
+    """F8: cancelling a wait loses no byte.  The transport (network_read / the SSL sibling) completes only when it has at
+    least the minimum it was asked for and reports its progress only then; bytes it has already received into the reader's
+    buffer are unknown to the reader until that completion.  So either every launch asks for a minimum of one byte (then
+    there is no unreported progress between events), or the routine that cancels a pending read must obtain the
+    transport's progress and add it to datalen.  Decided from the launch minimum (relational) and the cancel call's shape."""
+    from .. import poly
+    from ..poly import Lin
+    Rw = ("v", wt.params[0]["name"], wt.params[0]["id"])
+    fl = lambda n: Lin.var((".", ("*", Rw), n))
+    inv = [("<=", fl("bufpos"), fl("datalen")), ("<=", fl("datalen"), fl("buflen")), (">=", fl("buflen"), Lin.const(1))]
+    A = poly.Analysis(wt, assume=inv, quiet=READER_QUIET, inline={"netbuf_read_resize_buffer": u.func("netbuf_read_resize_buffer")},
+                      unsigned_terms={(".", ("*", Rw), n) for n in ("bufpos", "datalen", "buflen")}).run()
+    partial = []
+    for c, bi in ls:
+        st = A.state_before(c)
+        mn = A.lin(c.arg(bi + 2), st)
+        if mn is None or not A.holds(st, "==", mn, Lin.const(1)):
+            partial.append(c)
+    cn = u.func("netbuf_read_wait_cancel")
+    cancels = [c for c in cn.calls() if (c.callee == "network_read_cancel" or c.callee is None) and c.args and fld(norm(c.args[0] if c.callee else c.arg(0)), "read_cookie")]
+    if not cancels:
+        rep.defer_broken("F8: no cancellation of the pending read found in netbuf_read_wait_cancel")
+        return
+    # does the cancel path account for progress?  it would have to use the cancel call's result or query the transport
+    accounted = any((u.types.get(c.ty) or {}).get("kind") == "int" for c in cancels) and any(
+        ir.step(e) and fld(ir.step(e)[1], "datalen") for e in cn.all_elems())
+    ok = not partial or accounted
+    rep.check(ok, "F8-cancel", "cancelling a wait discards no received bytes", cancels[0].where,
+              "the launches at %s ask the transport for a minimum above one byte, so it may hold bytes it has received into the reader's buffer but not yet "
+              "reported; %s cancels it with %s, which returns nothing, and datalen is not advanced: those bytes are lost and the next wait overwrites "
+              "them (history: wait(10); 4 bytes arrive; wait_cancel; 6 more arrive; wait(6) -> the application sees bytes 5..10 as the start of the stream)" % (
+                  [c.loc.rsplit(":", 1)[0] for c in partial], cn.name, " / ".join(sorted(set((c.callee or "the SSL cancel function") for c in cancels)))),
+              function=cn.name, construct="cancel-discards-progress")
+
+
 def reader_window(prog, rep):
     """The relational window rules of netbuf_read.c alone (for the properties that are anchored in the reader too)."""
     u = prog.unit(RU)
@@ -427,6 +464,7 @@ def reader(prog, rep):
     if len(ls) != 2:
         rep.defer_broken("F4: expected two sibling transport launches in netbuf_read_wait")
     reader_relational(prog, rep, u, wt, ls)
+    reader_cancel(prog, rep, u, wt, ls)
     # immediate success exactly when enough data is buffered
     imm = list(wt.calls("events_immediate_register"))
     ok = len(imm) == 1 and norm(imm[0].arg(0)) == ("fn", "callback_success")
@@ -517,6 +555,9 @@ def reader(prog, rep):
             dec = [e for e in f.all_elems() if e.is_assign and e.op == "-=" and strip_ids(norm(e.kid(0))) == DATALEN and strip_ids(norm(e.kid(1))) == BUFPOS and f.dominates(c, e)]
             rst = [e for e in f.all_elems() if e.is_assign and e.op == "=" and strip_ids(norm(e.kid(0))) == BUFPOS and norm(e.kid(1)) == ("c", 0) and f.dominates(c, e)]
             ok = ln == ("-", DATALEN, BUFPOS) and len(dec) == 1 and len(rst) == 1 and f.dominates(dec[0], rst[0])
+            # compaction inside one buffer moves overlapping bytes: it must be memmove
+            if strip_ids(norm(c.arg(0))) == BUF:
+                ok = ok and c.callee_real == "memmove"
             rep.check(ok, "F5-compact", "compaction in %s" % f.name, c.where,
                       "copy datalen - bufpos bytes from &buf[bufpos]; then datalen -= bufpos; then bufpos = 0 (in that order)",
                       function=f.name, construct="compact")
